@@ -186,6 +186,15 @@ func checkC07(c *mc.Ctx) {
 			func(at int) *ref.Pkt { // transport error packet of PID B (content garbage, counter repeated)
 				return &ref.Pkt{PID: 0x101, TEI: true, HasPL: true, PUSI: true, Payload: bytes.Repeat([]byte{0x00}, 184), CC: lastCCBefore(st.Pkts, 0x101, at)}
 			},
+			func(at int) *ref.Pkt { // adaptation-only packet of PID A signalling a (PCR) discontinuity
+				return &ref.Pkt{PID: 0x100, HasAF: true, AF: &ref.AF{Disc: true, PCR: &ref.PCR{Base: 7}, Stuffing: 176}, CC: lastCCBefore(st.Pkts, 0x100, at)}
+			},
+			func(at int) *ref.Pkt { // adaptation-only packet of PID B whose counter was (wrongly) advanced: it carries no payload
+				return &ref.Pkt{PID: 0x101, HasAF: true, AF: &ref.AF{Stuffing: 182}, CC: (lastCCBefore(st.Pkts, 0x101, at) + 1) & 0xf}
+			},
+			func(at int) *ref.Pkt { // adaptation-only packet with discontinuity_indicator on the SDT PID
+				return &ref.Pkt{PID: 0x11, HasAF: true, AF: &ref.AF{Disc: true, Stuffing: 182}, CC: (lastCCBefore(st.Pkts, 0x11, at) + 5) & 0xf}
+			},
 			func(at int) *ref.Pkt { // adaptation-only packet on the SDT PID
 				return &ref.Pkt{PID: 0x11, HasAF: true, AF: &ref.AF{Stuffing: 182}, CC: lastCCBefore(st.Pkts, 0x11, at)}
 			},
@@ -203,7 +212,7 @@ func checkC07(c *mc.Ctx) {
 		})
 	}
 	c.Ev.AddScenario(mc.Scenario{Name: "insertions", SpaceSize: insTotal, Executed: insDone, Exhaustive: insDone == insTotal,
-		Bound: "2 base schedules x every insertion position x {null packet, AF-only on PES PID, TEI packet on PES PID, AF-only on PSI PID}"})
+		Bound: "2 base schedules x every insertion position x {null packet, AF-only on PES PID, TEI packet on PES PID, AF-only with discontinuity_indicator, AF-only with advanced counter, AF-only on PSI PID (plain and with discontinuity_indicator)}"})
 
 	// single-PID corruption: every byte (except the PID field) of every packet of PID A
 	o := roundRobin(l.lists)
